@@ -175,33 +175,48 @@ func (p PubSubBackend[Result]) ListenForNotifications(
 		defer close(replyChan)
 		defer cancel()
 
+		// the caller may have stopped reading: a reply is handed over only while the context is alive,
+		// and the final error only if there is room for it (the channel is closed right after anyway)
+		sendReply := func(reply Reply[Result]) {
+			select {
+			case replyChan <- reply:
+			case <-ctx.Done():
+			}
+		}
+		sendLastReply := func(reply Reply[Result]) {
+			select {
+			case replyChan <- reply:
+			default:
+			}
+		}
+
 		for {
 			select {
 			case <-ctx.Done():
-				replyChan <- Reply[Result]{
+				sendLastReply(Reply[Result]{
 					Error: ReplyTimeoutError{time.Since(start), ctx.Err()},
-				}
+				})
 				return
 			case notifyMsg, ok := <-notifyMsgs:
 				if !ok {
 					// subscriber is closed
-					replyChan <- Reply[Result]{
+					sendLastReply(Reply[Result]{
 						Error: ReplyTimeoutError{time.Since(start), fmt.Errorf("subscriber closed")},
-					}
+					})
 					return
 				}
 
 				resp, ok, unmarshalErr := p.handleNotifyMsg(notifyMsg, string(params.OperationID), p.marshaler)
 				if unmarshalErr != nil {
-					replyChan <- Reply[Result]{
+					sendReply(Reply[Result]{
 						Error: ReplyUnmarshalError{unmarshalErr},
-					}
+					})
 				} else if ok {
-					replyChan <- Reply[Result]{
+					sendReply(Reply[Result]{
 						HandlerResult:       resp.HandlerResult,
 						Error:               resp.Error,
 						NotificationMessage: notifyMsg,
-					}
+					})
 				}
 
 				// we assume that more messages may arrive (in case of fan-out commands handling) - we don't exit yet
